@@ -289,3 +289,114 @@ def count_formula(cfg, limit=10 ** 9):
         return sum(cp(p) for p, _ in cfg["core"])
     except (RecursionError, ValueError):
         return None
+
+
+# ---- JSON-style configuration dicts (Proxy.from_dict / ProxyGroup.from_dict): Model/ProxyDict.v terms ----------
+
+def _jpat(x):
+    return "(Some %s)" % ct.s(x) if isinstance(x, str) else "None"
+
+
+def jgraph_term(x):
+    if isinstance(x, str):
+        return "(JGStr %s)" % ct.s(x)
+    if isinstance(x, dict):
+        pat = "(Some %s)" % _jpat(x["pattern"]) if "pattern" in x else "None"
+        if "pattern" in x and x["pattern"] is not None and not isinstance(x["pattern"], str):
+            raise ct.Unrepresentable("pattern value %r" % (x["pattern"],))
+        anchor = "(Some %s)" % ct.lst([ct.z(a) for a in x["anchor"]]) if "anchor" in x else "None"
+        extra = ct.lst([ct.s(k) for k in x if k not in ("pattern", "anchor")])
+        return "(JGDict %s %s %s)" % (pat, anchor, extra)
+    return "JGOther"
+
+
+def jgroup_term(v):
+    if isinstance(v, str):
+        return "(JCStr %s)" % ct.s(v)
+    if isinstance(v, list):
+        return "(JCList %s)" % ct.lst([jgraph_term(x) for x in v])
+    if isinstance(v, dict):
+        if "graphs" not in v:
+            return "(JCDict None)"
+        gs = v["graphs"]
+        if isinstance(gs, list):
+            return "(JCDict (Some (JSList %s)))" % ct.lst([jgraph_term(x) for x in gs])
+        return "(JCDict (Some (JSOne %s)))" % jgraph_term(gs)
+    return "JCOther"
+
+
+def jgroups_term(groups):
+    return "(%s : list (string * jgroup string))" % ct.lst(["(%s, %s)" % (ct.s(k), jgroup_term(v)) for k, v in groups.items()])
+
+
+def jcore_term(core):
+    if isinstance(core, str):
+        return "(JKStr %s)" % ct.s(core)
+    return "(JKList %s)" % ct.lst([ct.s(p) for p in core])
+
+
+def conf_patterns(conf):
+    """every pattern string that occurs in a dict configuration"""
+    out = []
+
+    def add(p):
+        if isinstance(p, str) and p not in out:
+            out.append(p)
+
+    core = conf.get("core")
+    for p in ([core] if isinstance(core, str) else core or []):
+        add(p)
+    for v in conf.get("groups", {}).values():
+        items = v
+        if isinstance(v, dict):
+            items = v.get("graphs", [])
+        if isinstance(items, (str, dict)):
+            items = [items]
+        if isinstance(items, list):
+            for x in items:
+                add(x if isinstance(x, str) else x.get("pattern") if isinstance(x, dict) else None)
+    return out
+
+
+def table_term(patterns, mg=True):
+    return "(%s : list (string * mgraph))" % ct.lst(["(%s, %s)" % (ct.s(p), cmgraph(pattern_graph(p, mg)[0])) for p in patterns])
+
+
+def dict_forms(rng, cfg):
+    """An equivalent JSON-style configuration for a cfg dict whose groups are stored under their own names
+    (core anchors are not expressible: the caller sets them to [0])."""
+    groups = {}
+    for key, _, graphs in cfg["groups"]:
+        def item(p, a, force_dict=False):
+            if a == [0] and not force_dict and rng.random() < 0.6:
+                return p
+            d = {"pattern": p}
+            if a != [0] or rng.random() < 0.5:
+                d["anchor"] = list(a)
+            if rng.random() < 0.3:
+                d[rng.choice(["order", "weight", "tag"])] = rng.randint(0, 9)
+            if rng.random() < 0.15:
+                d["name"] = "n" + str(rng.randint(0, 9))
+            return d
+        forms = ["dictlist", "list"]
+        if len(graphs) == 1:
+            forms += ["dictone", "dictone"]
+            if graphs[0][1] == [0]:
+                forms += ["str", "dictstr"]
+        f = rng.choice(forms)
+        if f == "str":
+            v = graphs[0][0]
+        elif f == "dictstr":
+            v = {"graphs": graphs[0][0]}
+        elif f == "dictone":
+            v = {"graphs": item(graphs[0][0], graphs[0][1], force_dict=True)}
+        elif f == "list":
+            v = [item(p, a) for p, a in graphs]
+        else:
+            v = {"graphs": [item(p, a) for p, a in graphs]}
+        groups[key] = v
+    pats = [p for p, _ in cfg["core"]]
+    conf = {"core": pats[0] if len(pats) == 1 and rng.random() < 0.6 else pats, "groups": groups}
+    if not cfg["aam"] or rng.random() < 0.5:
+        conf["enable_aam"] = cfg["aam"]
+    return conf
